@@ -11,7 +11,8 @@
 From Coq Require Import ZArith List Bool Sorted.
 From V Require Import Model.ZMap Model.Quorum Model.HgImpl Model.PeerSetSpec
   Proofs.BlockInv Proofs.HgBlockFrames Proofs.PeerSetProofs Proofs.TidyRR
-  Proofs.AdmissionProofs Proofs.OrderProofs Proofs.Agreement Proofs.WindowWitness Model.Window Proofs.LrMono Proofs.WindowStable Proofs.GapWindow.
+  Proofs.AdmissionProofs Proofs.OrderProofs Proofs.Agreement Proofs.WindowWitness Model.Window Proofs.LrMono Proofs.WindowStable Proofs.GapWindow
+  Proofs.FirstDesc Proofs.FirstDescD Proofs.CInvRunD.
 Import ListNotations.
 Open Scope Z_scope.
 
@@ -247,6 +248,53 @@ Theorem C10_gap_lookup_final : forall self_ genesis oracle_ ops k r,
   get_peerset (hrun (init_hg self_ genesis oracle_) ops) r.
 Proof. exact gap_lookup_final. Qed.
 Print Assumptions C10_gap_lookup_final.
+
+(* MEMBERSHIP GATES UNDER DYNAMIC MEMBERSHIP (no [no_accept]: join / leave requests are accepted or
+   refused at will).  [psat st r] = the peer-set the table of [st] gives for round r.  For any run
+   that respects the distance bound and has not failed:
+   - every memoised round satisfies the round equation READ WITH THE FINAL TABLE: with spr, opr
+     the parents' rounds and pr = max spr opr, round = pr + 1 iff the event strongly sees (with the
+     set of pr) a super-majority (of the set of pr) of the round-pr witnesses, else pr;
+   - every memoised witness flag = creator in the set of the event's own round && self-parent's
+     round below it;
+   whatever the table held when the value was memoised.  This is the whole division invariant
+   [cinvD] (Proofs/FirstDescD.v: [cinv] of Proofs/FirstDesc.v with the single static set replaced by a
+   function of the round), in every state of the run; the static invariant is the instance
+   [cinv_cinvD].  Without the premise both gates fail: C10_window_witness, C01_dynamic_fork_witness. *)
+Theorem C10_division_invariant_dynamic : forall self_ genesis oracle_ all ops k,
+  self_ <> -1 -> ids_determine all -> Forall (hop_ok all) ops ->
+  gap_runb (init_hg self_ genesis oracle_) ops = true ->
+  failed (hrun (init_hg self_ genesis oracle_) (firstn k ops)) = false ->
+  cinvD (psat (hrun (init_hg self_ genesis oracle_) ops)) None
+        (hrun (init_hg self_ genesis oracle_) (firstn k ops)).
+Proof. exact (fun s g o all ops k Hs ID H Hg => hrun_cinvD s g o all ops Hs ID H Hg k). Qed.
+Print Assumptions C10_division_invariant_dynamic.
+
+Theorem C10_round_gate_dynamic : forall self_ genesis oracle_ all ops x r,
+  self_ <> -1 -> ids_determine all -> Forall (hop_ok all) ops ->
+  gap_runb (init_hg self_ genesis oracle_) ops = true ->
+  failed (hrun (init_hg self_ genesis oracle_) ops) = false ->
+  rmemo (hrun (init_hg self_ genesis oracle_) ops) x = Some r ->
+  0 <= r /\ exists ex, get_event (hrun (init_hg self_ genesis oracle_) ops) x = Some ex /\
+    reqD (psat (hrun (init_hg self_ genesis oracle_) ops)) (hrun (init_hg self_ genesis oracle_) ops) x ex r.
+Proof. exact (fun s g o all ops x r => gates_round_final s g o all ops x r). Qed.
+Print Assumptions C10_round_gate_dynamic.
+
+Theorem C10_witness_gate_dynamic : forall self_ genesis oracle_ all ops x w,
+  self_ <> -1 -> ids_determine all -> Forall (hop_ok all) ops ->
+  gap_runb (init_hg self_ genesis oracle_) ops = true ->
+  failed (hrun (init_hg self_ genesis oracle_) ops) = false ->
+  wmemo (hrun (init_hg self_ genesis oracle_) ops) x = Some w ->
+  exists ex r, get_event (hrun (init_hg self_ genesis oracle_) ops) x = Some ex /\
+    rmemo (hrun (init_hg self_ genesis oracle_) ops) x = Some r /\
+    weq (psat (hrun (init_hg self_ genesis oracle_) ops) r) (hrun (init_hg self_ genesis oracle_) ops) ex r w.
+Proof. exact (fun s g o all ops x w => gates_witness_final s g o all ops x w). Qed.
+Print Assumptions C10_witness_gate_dynamic.
+
+(* the static invariant is the constant-function instance *)
+Theorem C10_division_invariant_static_instance : forall g E st, cinv g E st -> cinvD (fun _ => g) E st.
+Proof. exact cinv_cinvD. Qed.
+Print Assumptions C10_division_invariant_static_instance.
 
 (* last_round never decreases along a run (used above; any events, any membership) *)
 Theorem C10_last_round_monotone : forall st ops, last_round st <= last_round (hrun st ops).
